@@ -188,7 +188,13 @@ def replay(job):
                         trial.append(name)
                     except UnexpectedToken:
                         pass
-                acc = [got, sorted(trial)]
+                c = real[h].as_mutable() if hasattr(real[h], 'as_mutable') else real[h].copy()
+                try:
+                    c.feed_token(Token('NO__SUCH__TERMINAL', ''))
+                    expd = ['<no error>']
+                except UnexpectedToken as e:
+                    expd = sorted(str(x) for x in e.expected)
+                acc = [got, sorted(trial), expd, sorted(terminals + ['$END'])]
         except Exception as e:
             steps.append({'o': o, 'hs': [[1, ['EXC'], type(e).__name__, 'x']], 'acc': acc, 'last': False, 'eof': []})
             break
